@@ -275,7 +275,9 @@ register("C01", title="replica determinism", engine="irc-history-engine",
          post_run=c01_post_run, timeout={"quick": 300, "thorough": 1800}, level="exploration",
          rule="each seeded history is applied to K fresh IRCServer instances in one process (K=4 quick, 8 thorough; Go randomises map iteration "
               "per range statement) and again in a second process with a different GOMAXPROCS; per entry the (id, text, sorted recipients) lists "
-              "must be equal, at the end the canonical state. evaluations = entries compared; non-trivial = entry with >=2 replies or a reply "
+              "must be equal, at the end the canonical state. Instance 0 additionally performs the reads a single node does on its own (expiry sweep, lookups, "
+              "status reads, Marshal) at seeded entries; one more instance applies the same history generated with a time base at the wall clock (instead of 2017): "
+              "commands and recipients of every reply and the state without its time fields must agree. evaluations = entries compared; non-trivial = entry with >=2 replies or a reply "
               "with >=2 recipients, distinct by (command, role, #replies, max #recipients)",
          floor={"quick": 5000, "thorough": 100000},
          technique="differential replay of generated histories on K instances and 2 processes",
@@ -425,7 +427,7 @@ register("C02", title="compaction / snapshot / restore are invisible", pkg=".",
          rule="seeded histories (5-120 entries, index gaps as raft-internal entries leave them) applied through the real FSM with real LevelDB stores and a real "
               "FileSnapshotStore under seeded schedules of Apply / Snapshot+Persist (compaction time chosen so that the cut falls before, inside or after the "
               "log) / Persist failing after n bytes / Restore / restart with a fresh FSM; a never-snapshotted twin fed through the same glue is the oracle: "
-              "after every step (a) each filed snapshot state equals the twin's state at that index, (b) the node's log copy and output store hold exactly the "
+              "also entries applied between Snapshot() and Persist() followed by restore/restart; after every step (a) each filed snapshot state equals the twin's state at that index, (b) the node's log copy and output store hold exactly the "
               "un-folded entries and nothing newer than the horizon was folded, (c) state and output equal the twin's, also on a probe continuation. "
               "evaluations = schedule steps + outputs compared; distinct = (sequence of step kinds and cut classes, index gaps)",
          floor={"quick": 1000, "thorough": 20000},
@@ -461,7 +463,9 @@ register("C16", title="configuration updates", pkg=".",
          floor={"quick": 150, "thorough": 2000},
          technique="reference-model oracle over the HTTP API of an in-process node")
 register("C11", title="credentials", pkg=".",
-         parts=[{"test": "^TestVerifC11$", "children": {"quick": 2, "thorough": 16}, "cases": {"quick": 1, "thorough": 6}}],
+         parts=[{"test": "^TestVerifC11$", "children": {"quick": 2, "thorough": 16}, "cases": {"quick": 1, "thorough": 6}},
+                {"cluster": True, "cluster_args": ["-auth"], "children": {"quick": 1, "thorough": 2}, "cases": {"quick": 1, "thorough": 1},
+                 "race": {"quick": False, "thorough": False}, "timeout": {"quick": 600, "thorough": 900}}],
          timeout={"quick": 400, "thorough": 2400}, level="exploration", env={"VERIF_REPO": "/repo"},
          rule="in-process node; every public session route x method x session state (fresh, logged in, other, deleted, never existed) x id spelling x credential "
               "variant (none, empty, wrong, prefix, extended, upper-case, own-after-delete, another live session's) must be refused without any change of state "
@@ -648,7 +652,9 @@ register("C04", title="exactly-once, in-order resume", pkg="./internal/api",
               "recipient sets, unique payloads) following independent lag plans; a client reads GET /messages over HTTP in seeded segments: it disconnects "
               "after k messages (between and inside batches), resumes with lastseen on a seeded replica that is caught up, behind the client, or catches up "
               "while the request runs (also during the code's back-off). The concatenated stream must be exactly the messages addressed to the session in "
-              "(id, reply) order; afterwards a caught-up replica must deliver the sentinel (bounded progress: 3 resumes x 5s). evaluations = segments read; "
+              "(id, reply) order; afterwards a caught-up replica must deliver the sentinel (bounded progress: 3 resumes x 5s); plus a 1150-batch backlog read with "
+              "resumes, and rounds in which the output stream is closed and replaced (refilled fully / partly / not at all, then growing) while a request is open. "
+              "evaluations = segments read; "
               "distinct = (number of replicas, sequence of resume situations)",
          floor={"quick": 300, "thorough": 6000},
          technique="client-side history check (unique payloads: order, no duplicate, no gap) over the real HTTP long-poll path")
@@ -666,6 +672,7 @@ register("C05", title="acknowledged messages survive crashes and fail-over", pkg
               "same clients rotating over the nodes, seeded faults: SIGKILL of leader / follower / all nodes, SIGSTOP pauses, restarts, forced snapshots. "
               "After the faults stop a sentinel is posted and every observer's stream is fetched from the start (B: from every node): every acknowledged "
               "payload exactly once, unacknowledged at most once, per-sender order, identical sequences on all nodes (numeric 003 masked), live stream == "
+              "(ids and texts) "
               "fetched stream. evaluations = (payload, observer, node) triples judged; distinct = fault-kind combinations / (kills, snapshots, open posts)",
          floor={"quick": 300, "thorough": 5000},
          technique="client-side history checking (unique payloads, open operations kept open) under SIGKILL/SIGSTOP/restart fault injection, single node and 3 real binaries")
